@@ -2363,6 +2363,13 @@ bus_transaction_capture_error_reply (BusTransaction  *transaction,
   if (connections->monitors == NULL)
     return TRUE;
 
+  /* A message that has not been given a serial number (a broadcast
+   * originated by the bus driver, such as NameOwnerChanged, refused for
+   * one of its recipients) cannot be replied to: the monitors have
+   * already been shown the message itself, there is no error to mock up. */
+  if (dbus_message_get_serial (in_reply_to) == 0)
+    return TRUE;
+
   reply = dbus_message_new_error (in_reply_to,
                                   error->name,
                                   error->message);
